@@ -152,7 +152,7 @@ pub fn verif_chars(s: &str) -> (r: Vec<char>)
                 }
                 assert(seg_ok(p, t, pi + 1, pi + 1, ti as int));
             }
-//@after ~else if pi < pat\.len\(\) && \(pat\[pi\] == '\?' \|\| pat\[pi\] == txt\[ti\]\) \{
+//@after ~if pi < pat\.len\(\) && \(pat\[pi\] == '\?' \|\| pat\[pi\] == txt\[ti\]\) \{
             proof {
                 match after_ast {
                     None => { lemma_g_unfold(p, t, pi as int, ti as int); },
